@@ -12,6 +12,7 @@ pub struct TableDP {
     pub n: usize, pub b: usize, pub d: usize,
     pub embed: bool, pub relax_mode: usize, pub rub_mode: usize, pub rank_mode: usize, pub dom_mode: usize,
     pub slack: isize,
+    pub init_val: isize,
     pub tab: Vec<Option<(usize, isize)>>,
     pub imp: Vec<bool>,
     pub hstar: Vec<Vec<Option<isize>>>, // [k][b], k in 0..=n
@@ -45,7 +46,7 @@ impl TableDP {
         self.members(code).iter().fold(None, |acc, &b| emax(acc, self.hstar[k][b]))
     }
     pub fn tokens(&self) -> String {
-        let mut t = format!("T {} {} {} {} {} {} {} {} {}", self.n, self.b, self.d, self.embed as u8, self.relax_mode, self.rub_mode, self.rank_mode, self.dom_mode, self.slack);
+        let mut t = format!("T {} {} {} {} {} {} {} {} {} {}", self.n, self.b, self.d, self.embed as u8, self.relax_mode, self.rub_mode, self.rank_mode, self.dom_mode, self.slack, self.init_val);
         for e in &self.tab { match e { None => t.push_str(" -1 0"), Some((b, c)) => t.push_str(&format!(" {} {}", b, c)) } }
         for i in &self.imp { t.push_str(if *i { " 1" } else { " 0" }); }
         t
@@ -62,7 +63,7 @@ impl TableDP {
             for dd in 0..d { if !rng.chance(1, 12) { tab[(k * b + bb) * d + dd] = Some((rng.below(b as u64) as usize, rng.range(-2, 4) as isize)); } }
         }}
         let mut t = TableDP { n, b, d, embed: !long_arcs && rng.chance(1, 2), relax_mode: rng.below(2) as usize, rub_mode: *rng.pick(&[0usize, 0, 0, 1, 2, 2]),
-            rank_mode: 0, dom_mode: if rng.chance(1, 4) { 1 } else { 0 }, slack: rng.range(0, 2) as isize, tab, imp, hstar: vec![] };
+            rank_mode: 0, dom_mode: if rng.chance(1, 4) { 1 } else { 0 }, slack: rng.range(0, 2) as isize, init_val: if rng.chance(1, 2) { 0 } else { rng.range(-4, 9) as isize }, tab, imp, hstar: vec![] };
         t.compute_hstar();
         t
     }
@@ -80,12 +81,20 @@ impl TableDP {
             for dd in 0..d { if !rng.chance(dead, 100) { tab[(k * b + bb) * d + dd] = Some((rng.below(b as u64) as usize, rng.range(cost_lo, 4) as isize)); } }
         }}
         let mut t = TableDP { n, b, d, embed: !long_arcs && rng.chance(1, 2), relax_mode: rng.below(2) as usize, rub_mode: *rng.pick(&[0usize, 0, 0, 1, 2, 2]),
-            rank_mode: if rng.chance(1, 6) { 1 } else { 0 }, dom_mode: if rng.chance(1, 4) { 1 } else { 0 }, slack: rng.range(0, 2) as isize, tab, imp, hstar: vec![] };
+            rank_mode: if rng.chance(1, 6) { 1 } else { 0 }, dom_mode: if rng.chance(1, 4) { 1 } else { 0 }, slack: rng.range(0, 2) as isize, init_val: if rng.chance(1, 2) { 0 } else { rng.range(-4, 9) as isize }, tab, imp, hstar: vec![] };
         t.compute_hstar();
         t
     }
 }
 impl Knap {
+    /// larger instances with the (capacity, value) dominance rule always on
+    pub fn random_dominance(rng: &mut Rng) -> Knap {
+        let n = rng.range(4, 8) as usize;
+        let weight: Vec<usize> = (0..n).map(|_| rng.range(1, 6) as usize).collect();
+        let profit: Vec<isize> = (0..n).map(|_| rng.range(1, 9) as isize).collect();
+        let cap = rng.range(3, (weight.iter().sum::<usize>() as i64 * 2 / 3).max(4)) as usize;
+        Knap { n, cap, profit, weight, rub_mode: rng.below(2) as usize, dom_mode: 1 }
+    }
     pub fn depth(code: i64) -> usize { (code / 1000) as usize }
     pub fn cap(code: i64) -> usize { (code % 1000) as usize }
     pub fn mk(depth: usize, cap: usize) -> i64 { (depth * 1000 + cap) as i64 }
@@ -118,10 +127,10 @@ impl Fam {
         let p = |i: usize| -> i64 { t[i].parse().unwrap() };
         if t[0] == "T" {
             let (n, b, d) = (p(1) as usize, p(2) as usize, p(3) as usize);
-            let mut tab = vec![]; let mut i = 10;
+            let mut tab = vec![]; let mut i = 11;
             for _ in 0..n * b * d { let (x, c) = (p(i), p(i + 1)); i += 2; tab.push(if x < 0 { None } else { Some((x as usize, c as isize)) }); }
             let mut imp = vec![]; for _ in 0..n * b { imp.push(p(i) == 1); i += 1; }
-            let mut tb = TableDP { n, b, d, embed: p(4) == 1, relax_mode: p(5) as usize, rub_mode: p(6) as usize, rank_mode: p(7) as usize, dom_mode: p(8) as usize, slack: p(9) as isize, tab, imp, hstar: vec![] };
+            let mut tb = TableDP { n, b, d, embed: p(4) == 1, relax_mode: p(5) as usize, rub_mode: p(6) as usize, rank_mode: p(7) as usize, dom_mode: p(8) as usize, slack: p(9) as isize, init_val: p(10) as isize, tab, imp, hstar: vec![] };
             tb.compute_hstar();
             (Fam::Table(tb), i)
         } else {
@@ -137,7 +146,7 @@ impl Problem for Fam {
     type State = i64;
     fn nb_variables(&self) -> usize { self.n() }
     fn initial_state(&self) -> i64 { match self { Fam::Table(t) => t.mk(1, 0), Fam::Knap(k) => Knap::mk(0, k.cap) } }
-    fn initial_value(&self) -> isize { 0 }
+    fn initial_value(&self) -> isize { match self { Fam::Table(t) => t.init_val, Fam::Knap(_) => 0 } }
     fn transition(&self, s: &i64, d: Decision) -> i64 {
         match self {
             Fam::Table(t) => {
